@@ -527,6 +527,64 @@ NOT_APPLICABLE = [
     {"property_id": "C09", "reason": "statistical hit-ratio property over 10^4-10^6-step traces; no bounded symbolic execution of a handful of steps decides it (DESIGN.md §4 C09). The mechanisms it names (admission direction, demotion instead of eviction) are asserted structurally under C07."},
 ]
 
+
+# ---- round 6 additions (programs written after the sixth round of seeded changes) ----
+def _add(pid, tier, *hs):
+    PROPS[pid].setdefault("thorough", list(PROPS[pid]["quick"]))
+    PROPS[pid][tier].extend(hs)
+
+_hist2 = "N=%d calls out of the wider menu: Set k1/k2 (symbolic cost, cost function, TTL), Get, Delete, clock advance, drain, tick, Range, loading Get k1/k2 (symbolic loader cost and TTL) with the C06 model, the Range clauses and the ledger"
+_add("C06", "quick", H("ZZ_C06_History", params={"N": 2, "MENU": 1}, reach=["history-done", "loader-ran"], bounds=_hist2 % 2),
+     H("ZZ_C06_History", params={"N": 2, "MENU": 1, "POOL": 1}, reach=["history-done"], bounds="entry pool on; " + _hist2 % 2))
+_add("C06", "thorough", H("ZZ_C06_History", params={"N": 3, "MENU": 1}, reach=["history-done", "loader-ran"], bounds=_hist2 % 3, timeout_s=3000),
+     H("ZZ_C06_History", params={"N": 2, "MENU": 1, "DOOR": 1}, reach=["history-done"], bounds="doorkeeper on; " + _hist2 % 2),
+     H("ZZ_C06_History", params={"N": 2, "MENU": 1, "POOL": 1, "POOLMODE": 2, "CAP": 1}, reach=["history-done"], bounds="entry pool with adversarial reuse, MaxSize 1; " + _hist2 % 2, timeout_s=3000))
+for _p in ("C01", "C16", "C13"):
+    _add(_p, "quick", H("ZZ_C06_History", params={"N": 2, "MENU": 1}, reach=["history-done", "loader-ran"], bounds=_hist2 % 2))
+    _add(_p, "thorough", H("ZZ_C06_History", params={"N": 2, "MENU": 1}, reach=["history-done", "loader-ran"], bounds=_hist2 % 2))
+# C13: admission of a loaded value is Set's (cost function, MaxSize rule): the loader lemma of C06
+for _t in ("quick", "thorough"):
+    _add("C13", _t, H("ZZ_C06_Loader", reach=["loaded"], bounds="loader cost symbolic 0..MaxSize+5 (0 = cost function, symbolic): admitted exactly like a Set"))
+# C04 / C11: persistence x timer wheel
+_al = "saved cache up for %d s (restored deadline lands on wheel level %s of the new cache), TTL <= 2^31 ns and downtime <= 2^30 ns symbolic, five maintenance ticks"
+_add("C04", "quick", H("ZZ_C04_AfterLoad", params={"UPS": 70}, reach=["ticks-done"], bounds=_al % (70, "1")),
+     H("ZZ_C04_AfterLoad", params={"UPS": 4100}, reach=["ticks-done"], bounds=_al % (4100, "1-2")))
+_add("C04", "thorough", H("ZZ_C04_AfterLoad", params={"UPS": 3}, reach=["ticks-done"], bounds=_al % (3, "0")),
+     H("ZZ_C04_AfterLoad", params={"UPS": 70}, reach=["ticks-done"], bounds=_al % (70, "1")),
+     H("ZZ_C04_AfterLoad", params={"UPS": 4100}, reach=["ticks-done"], bounds=_al % (4100, "1-2")),
+     H("ZZ_C04_AfterLoad", params={"UPS": 90000}, reach=["ticks-done"], bounds=_al % (90000, "2")),
+     H("ZZ_C04_AfterLoad", params={"UPS": 300000}, reach=["ticks-done"], bounds=_al % (300000, "3")),
+     H("ZZ_C04_AfterLoad", params={"UPS": 1200000}, reach=["ticks-done"], bounds=_al % (1200000, "4")))
+for _t in ("quick", "thorough"):
+    _add("C11", _t, H("ZZ_C04_AfterLoad", params={"UPS": 70}, reach=["ticks-done"], bounds="restored deadlines are honoured by the new cache's wheel; " + _al % (70, "1")))
+# C05: ledger on concurrent histories
+_cc = "two clients x one call out of Set k1 / Delete k1 / Set k2, every interleaving within the preemption bound (a Delete may overtake the insert event of the Set it deletes)"
+_add("C05", "quick", H("ZZ_C05_Conc", params={"PRE": 1}, reach=["drained"], bounds=_cc),
+     H("ZZ_C05_Conc", params={"PRE": 1, "SETUP": 1}, reach=["drained"], bounds="k1 resident beforehand; " + _cc))
+_add("C05", "thorough", H("ZZ_C05_Conc", params={"PRE": 2}, reach=["drained"], bounds=_cc),
+     H("ZZ_C05_Conc", params={"PRE": 2, "SETUP": 1}, reach=["drained"], bounds="k1 resident beforehand; " + _cc),
+     H("ZZ_C05_Conc", params={"PRE": 2, "CAP": 1}, reach=["drained"], bounds="MaxSize 1; " + _cc),
+     H("ZZ_C05_Conc", params={"PRE": 1, "POOL": 1}, reach=["drained"], bounds="entry pool on; " + _cc))
+for _t, _pre in (("quick", 1), ("thorough", 2)):
+    _add("C02", _t, H("ZZ_C05_Conc", params={"PRE": _pre}, reach=["drained"], bounds="accounting after the drain; " + _cc))
+# C20: barrier while the victim's shard is busy
+_bs = "MaxSize 1, a failing loader of another key holds the victim's shard lock across three yields while a Set forces the eviction and Wait is called"
+_add("C20", "quick", H("ZZ_C20_BarrierWithBusyShard", params={"PRE": 1}, reach=["barrier-returned", "all-returned"], bounds=_bs, step_limit=200000),
+     H("ZZ_C20_BarrierWithBusyShard", params={"PRE": 2}, reach=["barrier-returned", "all-returned"], bounds=_bs, step_limit=200000))
+_add("C20", "thorough", H("ZZ_C20_BarrierWithBusyShard", params={"PRE": 3}, reach=["barrier-returned", "all-returned"], bounds=_bs, step_limit=200000))
+# C14 / C03: deadline of a value that is overwritten while it is being demoted
+_dd = "long-TTL value being demoted (MaxSize 1) vs SetWithTTL with a short TTL on the same key; read after the short deadline"
+for _pid in ("C14", "C03"):
+    _add(_pid, "quick", H("ZZ_C14_DeadlineVsDemotion", params={"PRE": 1, "LOADING": 1}, reach=["both-returned"], bounds=_dd))
+    _add(_pid, "thorough", H("ZZ_C14_DeadlineVsDemotion", params={"PRE": 2, "LOADING": 1}, reach=["both-returned"], bounds=_dd))
+# C01 / C18: entry pool without a removal listener
+_pn = "entry pool on, no removal listener, full cache of MaxSize 4; Set k1 (cost 1..3 symbolic) and Delete k1 at once, then two more keys"
+for _pid in ("C01", "C18"):
+    _add(_pid, "quick", H("ZZ_C01_PoolNoListener", params={"PRE": 0}, reach=["two-more-keys"], bounds=_pn), H("ZZ_C01_PoolNoListener", params={"PRE": 1}, reach=["two-more-keys"], bounds=_pn))
+    _add(_pid, "thorough", H("ZZ_C01_PoolNoListener", params={"PRE": 2}, reach=["two-more-keys"], bounds=_pn), H("ZZ_C01_PoolNoListener", params={"PRE": 2, "POOLMODE": 2, "CAP": 6}, reach=["two-more-keys"], bounds="adversarial pool reuse, MaxSize 6; " + _pn))
+for _t in ("quick", "thorough"):
+    _add("C18", _t, H("ZZ_C01_Linearizable", params={"PRE": 0, "LOADING": 1}, reach=["history-complete"], bounds="loading cache with the happens-before monitor: a hit never reads the entry's value outside the shard lock (with the entry pool that read can yield another key's value)"))
+
 def main():
     checks = {}
     manifest_checks = []
